@@ -15,41 +15,46 @@ use std::{cell::RefCell, collections::HashMap, io::Cursor, sync::Arc};
 use c2pa::{Context, Reader};
 use serde_json::{json, Value};
 
-use crate::{canon, par, sdk};
+use crate::{par, sdk};
 
 // ------------------------------------------------------------------------------------------------
 // edits
 
+/// One contiguous edit, realised on a concrete signed file. `sym` is a symbolic description that does not
+/// depend on the random parts of the file (labels, hashes, signature), so that a recorded case can be re-applied
+/// to a freshly signed seed: a replay re-enumerates the edits of the seed and picks the one with the same `sym`.
 #[derive(Clone, Debug, PartialEq)]
 pub struct Edit {
-    /// class of the edit: flip / delete / insert / truncate / append / dup / del-unit / swap / append-unit
+    /// class of the edit (used in violation keys)
     pub kind: &'static str,
     pub start: usize,
     pub end: usize,
     pub rep: Vec<u8>,
+    pub sym: String,
 }
 
 impl Edit {
     pub fn flip(f: &[u8], p: usize, mask: u8) -> Edit {
-        Edit { kind: "flip", start: p, end: p + 1, rep: vec![f[p] ^ mask] }
-    }
-    pub fn set(p: usize, v: u8) -> Edit {
-        Edit { kind: "flip", start: p, end: p + 1, rep: vec![v] }
+        Edit { kind: "flip", start: p, end: p + 1, rep: vec![f[p] ^ mask], sym: format!("xor p={p} mask={mask:02x}") }
     }
     pub fn delete(p: usize) -> Edit {
-        Edit { kind: "delete", start: p, end: p + 1, rep: vec![] }
+        Edit { kind: "delete", start: p, end: p + 1, rep: vec![], sym: format!("delete p={p}") }
     }
     pub fn insert(p: usize, b: u8) -> Edit {
-        Edit { kind: "insert", start: p, end: p, rep: vec![b] }
+        Edit { kind: "insert", start: p, end: p, rep: vec![b], sym: format!("insert p={p} byte={b:02x}") }
+    }
+    /// insert a copy of the byte that follows
+    pub fn insert_copy(f: &[u8], p: usize) -> Edit {
+        Edit { kind: "insert", start: p, end: p, rep: vec![f[p]], sym: format!("insert p={p} byte=copy-of-next") }
     }
     pub fn truncate(f: &[u8], len: usize) -> Edit {
-        Edit { kind: "truncate", start: len, end: f.len(), rep: vec![] }
+        Edit { kind: "truncate", start: len, end: f.len(), rep: vec![], sym: format!("truncate len={len}") }
     }
-    pub fn append(f: &[u8], bytes: Vec<u8>, kind: &'static str) -> Edit {
-        Edit { kind, start: f.len(), end: f.len(), rep: bytes }
+    pub fn append(f: &[u8], bytes: Vec<u8>, kind: &'static str, sym: String) -> Edit {
+        Edit { kind, start: f.len(), end: f.len(), rep: bytes, sym }
     }
-    pub fn splice(kind: &'static str, start: usize, end: usize, rep: Vec<u8>) -> Edit {
-        Edit { kind, start, end, rep }
+    pub fn splice(kind: &'static str, start: usize, end: usize, rep: Vec<u8>, sym: String) -> Edit {
+        Edit { kind, start, end, rep, sym }
     }
     pub fn apply(&self, f: &[u8]) -> Vec<u8> {
         let mut v = Vec::with_capacity(f.len() + self.rep.len());
@@ -59,24 +64,14 @@ impl Edit {
         v
     }
     pub fn to_json(&self) -> Value {
-        json!({"kind": self.kind, "start": self.start, "end": self.end, "rep": crate::ev::hex(&self.rep)})
-    }
-    pub fn from_json(v: &Value) -> Option<Edit> {
-        let kind = v["kind"].as_str()?;
-        let kind: &'static str = KINDS.iter().copied().find(|k| *k == kind).unwrap_or("edit");
-        Some(Edit {
-            kind,
-            start: v["start"].as_u64()? as usize,
-            end: v["end"].as_u64()? as usize,
-            rep: crate::ev::unhex(v["rep"].as_str()?),
-        })
+        json!(self.sym)
     }
 }
 
-pub const KINDS: [&str; 14] = [
-    "flip", "delete", "insert", "truncate", "append", "append-zero", "append-unit", "append-new-unit", "dup-unit",
-    "del-unit", "swap-units", "label", "move-box", "edit",
-];
+/// First differing offset between a file and its mutant (= len of the shorter when one is a prefix of the other).
+pub fn first_diff(a: &[u8], b: &[u8]) -> usize {
+    a.iter().zip(b.iter()).position(|(x, y)| x != y).unwrap_or(a.len().min(b.len()))
+}
 
 // ------------------------------------------------------------------------------------------------
 // walkers
@@ -261,7 +256,7 @@ pub fn walk_gif(d: &[u8]) -> Option<Vec<Unit>> {
                 let end = gif_sub_blocks(d, p + 2)?;
                 let name = match label {
                     0xFF => {
-                        if d.get(p + 2) == Some(&0x0B) && d.get(p + 3..p + 11) == Some(b"C2PA_GIF") {
+                        if d.get(p + 2) == Some(&0x0B) && d.get(p + 3..p + 11) == Some(&b"C2PA_GIF"[..]) {
                             "app:C2PA".to_string()
                         } else {
                             "app".to_string()
@@ -362,12 +357,12 @@ pub fn c2pa_container(family: &str, d: &[u8]) -> Option<(usize, usize)> {
     let units = walk(family, d)?;
     let is_c2pa = |u: &Unit| -> bool {
         match family {
-            "jpeg" => u.name == "APP11" && d.get(u.start + 4..u.start + 6) == Some(b"JP"),
+            "jpeg" => u.name == "APP11" && d.get(u.start + 4..u.start + 6) == Some(&b"JP"[..]),
             "png" => u.name == "caBX",
             "gif" => u.name == "app:C2PA",
             "riff" => u.name == "C2PA",
             "bmff" => u.name == "uuid" && d.get(u.start + 8..u.start + 24) == Some(&C2PA_UUID[..]),
-            "jxl" => u.name == "jumb" && d.get(u.start + 8 + 8 + 16 + 1..u.start + 8 + 8 + 16 + 1 + 4) == Some(b"c2pa"),
+            "jxl" => u.name == "jumb" && d.get(u.start + 33..u.start + 37) == Some(&b"c2pa"[..]),
             _ => false,
         }
     };
@@ -404,6 +399,26 @@ pub fn jumbf_payload(family: &str, d: &[u8]) -> Option<(usize, usize)> {
         "c2pa" => Some((0, d.len())),
         _ => None,
     }
+}
+
+/// All C2PA `uuid` boxes of a BMFF file: (box start, box end, start of the JUMBF payload inside the box).
+/// Box layout: size, 'uuid', usertype(16), version/flags(4), purpose (NUL terminated), 8-byte merkle offset, JUMBF.
+pub fn bmff_c2pa_boxes(d: &[u8]) -> Option<Vec<(usize, usize, usize)>> {
+    let mut out = vec![];
+    for u in walk_boxes(d, 0, d.len())? {
+        if u.name == "uuid" && d.get(u.start + 8..u.start + 24) == Some(&C2PA_UUID[..]) {
+            let mut p = u.start + 28;
+            while p < u.end && d[p] != 0 {
+                p += 1;
+            }
+            let j = p + 1 + 8;
+            if j > u.end {
+                return None;
+            }
+            out.push((u.start, u.end, j));
+        }
+    }
+    Some(out)
 }
 
 /// Name of the unit of `units` that contains byte offset `p` ("eof" when p is the file length).
@@ -452,17 +467,17 @@ fn walk_jumbf_rec(d: &[u8], from: usize, to: usize, depth: usize, parent: Option
             let hdr = if be32(d, u.start)? == 1 { 16 } else { 8 };
             let before = out.len();
             walk_jumbf_rec(d, u.start + hdr, u.end, depth + 1, Some(idx), out)?;
-            if let Some(first) = out.get(before) {
-                if first.typ == "jumd" {
-                    let p = first.start + 8 + 16; // uuid
+            if let Some((fstart, fend, ftyp)) = out.get(before).map(|f| (f.start, f.end, f.typ.clone())) {
+                if ftyp == "jumd" {
+                    let p = fstart + 8 + 16; // uuid
                     let toggles = *d.get(p)?;
                     if toggles & 0x02 != 0 {
                         let ls = p + 1;
                         let mut le = ls;
-                        while le < first.end && d[le] != 0 {
+                        while le < fend && d[le] != 0 {
                             le += 1;
                         }
-                        if le < first.end {
+                        if le < fend {
                             out[idx].label = Some(String::from_utf8_lossy(&d[ls..le]).into_owned());
                             out[idx].label_range = Some((ls, le));
                         }
@@ -685,8 +700,9 @@ pub fn binding_from_report(detailed: &Value, label: &str, family: &'static str) 
                 return Err("box hash without boxes".into());
             }
             for b in &boxes {
-                if b.get("excluded").and_then(|x| x.as_bool()) == Some(true) {
-                    return Err("box hash with an `excluded` entry is not interpreted".into());
+                let is_c2pa = b["names"].as_array().map(|n| n.len() == 1 && n[0].as_str() == Some("C2PA")).unwrap_or(false);
+                if b.get("excluded").and_then(|x| x.as_bool()) == Some(true) && !is_c2pa {
+                    return Err(format!("box hash with an `excluded` entry other than C2PA is not interpreted: {}", b["names"]));
                 }
             }
             found.push(Binding::Boxes { family });
@@ -825,7 +841,7 @@ pub fn observe_reader(r: Result<c2pa::Result<Reader>, String>) -> Obs {
             if st == "Invalid" {
                 Obs::Invalid
             } else {
-                match par::guard(|| canon::canon_string(&rd)) {
+                match par::guard(|| canon_report(&rd)) {
                     Ok(c) => Obs::Accepted { state: st, canon: c },
                     Err(p) => Obs::Panic(format!("while rendering the report: {p}")),
                 }
@@ -846,6 +862,143 @@ pub fn observe_detached(spec: &ReadSpec, manifest: &[u8], asset: &[u8]) -> Obs {
     observe_reader(par::guard(|| {
         Reader::from_shared_context(&ctx).with_manifest_data_and_stream(manifest, &spec.mime, Cursor::new(asset))
     }))
+}
+
+// ------------------------------------------------------------------------------------------------
+// order-independent canonical report
+//
+// `Reader` keeps its manifests in a HashMap, so the order of the "manifests" object (and with it a
+// first-occurrence renaming of the random labels) differs between two reads of the same bytes as soon as
+// there is more than one manifest. This canonicaliser first orders every object by keys/values with the
+// random tokens masked, then renames tokens by first occurrence in that order.
+
+const TOKEN_PREFIXES: [&str; 5] = ["urn:c2pa:", "urn:uuid:", "xmp:iid:", "xmp.iid:", "xmp:did:"];
+
+/// Split `s` into literal pieces and random tokens (urn:c2pa:<uuid...> etc.).
+fn tokens(s: &str) -> Vec<(bool, &str)> {
+    let mut out = vec![];
+    let mut rest = s;
+    loop {
+        let idx = TOKEN_PREFIXES.iter().filter_map(|p| rest.find(p).map(|i| (i, p.len()))).min();
+        match idx {
+            None => {
+                if !rest.is_empty() {
+                    out.push((false, rest));
+                }
+                return out;
+            }
+            Some((i, plen)) => {
+                if i > 0 {
+                    out.push((false, &rest[..i]));
+                }
+                let tail = &rest[i..];
+                let end = tail[plen..].find(|c: char| !(c.is_ascii_hexdigit() || c == '-')).map(|e| e + plen).unwrap_or(tail.len());
+                out.push((true, &tail[..end]));
+                rest = &tail[end..];
+            }
+        }
+    }
+}
+
+fn mask(s: &str) -> String {
+    tokens(s).iter().map(|(t, p)| if *t { "*" } else { *p }).collect()
+}
+
+/// Rendering with tokens masked and object keys sorted: the "shape" used to order siblings.
+fn shape(v: &Value, out: &mut String) {
+    match v {
+        Value::Object(m) => {
+            let mut items: Vec<(String, String)> = m
+                .iter()
+                .filter(|(k, _)| *k != "validation_time" && *k != "validationTime")
+                .map(|(k, x)| {
+                    let mut s = String::new();
+                    shape(x, &mut s);
+                    (mask(k), s)
+                })
+                .collect();
+            items.sort();
+            out.push('{');
+            for (k, s) in items {
+                out.push_str(&k);
+                out.push(':');
+                out.push_str(&s);
+                out.push(',');
+            }
+            out.push('}');
+        }
+        Value::Array(a) => {
+            out.push('[');
+            for x in a {
+                shape(x, out);
+                out.push(',');
+            }
+            out.push(']');
+        }
+        Value::String(s) => {
+            out.push('"');
+            out.push_str(&mask(s));
+            out.push('"');
+        }
+        other => out.push_str(&other.to_string()),
+    }
+}
+
+fn rename_str(s: &str, names: &mut HashMap<String, String>) -> String {
+    let mut out = String::new();
+    for (is_tok, piece) in tokens(s) {
+        if is_tok {
+            let n = names.len();
+            out.push_str(names.entry(piece.to_string()).or_insert_with(|| format!("<id{n}>")));
+        } else {
+            out.push_str(piece);
+        }
+    }
+    out
+}
+
+fn canon_rec(v: &Value, names: &mut HashMap<String, String>) -> Value {
+    match v {
+        Value::Object(m) => {
+            let mut items: Vec<(String, String, &String, &Value)> = m
+                .iter()
+                .filter(|(k, _)| *k != "validation_time" && *k != "validationTime")
+                .map(|(k, x)| {
+                    let mut s = String::new();
+                    shape(x, &mut s);
+                    (mask(k), s, k, x)
+                })
+                .collect();
+            items.sort_by(|a, b| (&a.0, &a.1).cmp(&(&b.0, &b.1)));
+            let mut o = serde_json::Map::new();
+            for (_, _, k, x) in items {
+                let nk = rename_str(k, names);
+                let nv = canon_rec(x, names);
+                o.insert(nk, nv);
+            }
+            Value::Object(o)
+        }
+        Value::Array(a) => {
+            let mut items: Vec<Value> = a.iter().map(|x| canon_rec(x, names)).collect();
+            // lists of validation statuses and of per-ingredient deltas are collections: their order follows the
+            // (unprotected) order of boxes in the assertion store and is not report content
+            if !items.is_empty() && items.iter().all(|x| x.get("code").is_some() || x.get("ingredientAssertionURI").is_some()) {
+                items.sort_by_key(|x| x.to_string());
+            }
+            Value::Array(items)
+        }
+        Value::String(s) => Value::String(rename_str(s, names)),
+        other => other.clone(),
+    }
+}
+
+/// Order-independent canonical report of a reader (json + detailed_json + state), as a string.
+pub fn canon_report(r: &Reader) -> String {
+    let j: Value = serde_json::from_str(&r.json()).unwrap_or(Value::Null);
+    let d: Value = serde_json::from_str(&r.detailed_json()).unwrap_or(Value::Null);
+    let v = json!({"json": j, "detailed": d, "state": sdk::state_name(r.validation_state())});
+    let mut names = HashMap::new();
+    canon_rec(&v, &mut names).to_string()
 }
 
 /// Short stable digest of a panic message for violation keys (location stripped of line numbers is kept).
